@@ -34,6 +34,9 @@ class Ctx:
         self.tmp = tempfile.mkdtemp(prefix="verif-%s-" % pid)
         self.specdir = os.path.join(self.tmp, "spec")
         shutil.copytree(SPEC, self.specdir)
+        # TLC wants the cfg next to the module: copy them all once (not per run: parallel runs share the directory)
+        for c in os.listdir(os.path.join(self.specdir, "cfg")):
+            shutil.copy(os.path.join(self.specdir, "cfg", c), os.path.join(self.specdir, c))
         self.harness = None
         self.mc = []            # MC run summaries
         self.tv = []            # TV / GEN run summaries
@@ -97,9 +100,6 @@ class Ctx:
         cfgpath = os.path.join(self.specdir, "cfg", cfg + ".cfg")
         if not os.path.exists(cfgpath):
             raise Broken("missing cfg " + cfgpath)
-        # TLC wants the cfg next to the module (or by path); copy beside it.
-        local_cfg = os.path.join(self.specdir, cfg + ".cfg")
-        shutil.copy(cfgpath, local_cfg)
         gct = 2 if workers <= 2 else min(8, workers)
         cmd = ["java", "-Djava.io.tmpdir=" + meta, "-XX:+UseParallelGC", "-XX:ParallelGCThreads=%d" % gct, "-Xss256m",
                "-Xmx%s" % (heap or ("4g" if workers <= 2 else "16g")), "-cp", TLA_JAR, "tlc2.TLC",
